@@ -53,6 +53,8 @@ class WideGen:
     def numeric(self, integer):
         s = {"type": "integer" if integer else "number"}
         pal = INTS if integer else NUMS
+        if integer and self.maybe(0.2):
+            pal = [-7.5, -2.5, 0.5, 2.5, 7.5, 126.5, 255.5] + INTS[4:12]
         if self.maybe(0.45):
             s["minimum"] = self.pick(pal)
         if self.maybe(0.45):
@@ -83,12 +85,52 @@ class WideGen:
             s["default"] = self.pick([[], [1], ["a", "b"], [[1]]])
         return s
 
-    def obj(self, depth):
+    def obj(self, depth, parent_names=()):
         s = {"type": "object"}
         n = self.pick([0, 1, 1, 2, 2, 3, 4])
         names = self.rng.sample(NAMES, n)
+        if parent_names and self.maybe(0.5):
+            # the same key names as the enclosing object (requirements of one level must not leak into another)
+            names = list(dict.fromkeys(self.rng.sample(list(parent_names), min(len(parent_names), max(1, n))) + names))[:max(n, 1)]
+        if n >= 2 and self.maybe(0.2):
+            # two names that meet after normalisation
+            a, b = self.pick([("x-y", "x_y"), ("xY", "x_y"), ("Content-Type", "ContentType"), ("user_id", "userId"), ("list", "listElem"), ("m", "mValue")])
+            names = list(dict.fromkeys([a, b] + names))[:max(n, 2)]
         if n:
-            s["properties"] = {k: self.node(depth - 1) for k in names}
+            s["properties"] = {k: (self.obj(depth - 1, names) if depth > 0 and self.maybe(0.15) else self.node(depth - 1)) for k in names}
+        pr = s.get("properties") or {}
+        if depth > 0:
+            # derived type names: array items are <X>Elem, map values <X>Value; two inline objects with one Go name, almost equal
+            if "list" in pr and "listElem" in pr:
+                pr["list"] = {"type": "array", "items": self.pick([self.obj(0), {"anyOf": [self.obj(0), self.obj(0)]}])}
+                pr["listElem"] = self.obj(0)
+            if "shape" in pr and "shapeElem" in pr:
+                pr["shape"] = {"type": "array", "items": {"anyOf": [self.obj(0), self.obj(0)]}}
+                pr["shapeElem"] = self.obj(0)
+            for a, b in (("x-y", "x_y"), ("xY", "x_y"), ("user_id", "userId")):
+                if a in pr and b in pr and self.maybe(0.7):
+                    import copy
+                    o1 = self.obj(0)
+                    if not o1.get("properties"):
+                        o1["properties"] = {"v": self.node(0)}
+                    o2 = copy.deepcopy(o1)
+                    k0 = sorted(o2["properties"])[0]
+                    var = self.pick(["default", "title", "required", "constraint"])
+                    if var == "default" and isinstance(o2["properties"][k0], dict) and o2["properties"][k0].get("type") in ("string", "integer", "number", "boolean"):
+                        o2["properties"][k0]["default"] = {"string": "dflt", "integer": 5, "number": 1.5, "boolean": True}[o2["properties"][k0]["type"]]
+                        o1["required"] = o2["required"] = [k0]
+                    elif var == "title":
+                        o2["title"] = "another title"
+                    elif var == "required":
+                        o2["required"] = [k0]
+                        o1.pop("required", None)
+                    else:
+                        o2["properties"][k0] = self.node(0)
+                    if self.maybe(0.5):
+                        o1, o2 = o2, o1
+                    pr[a], pr[b] = o1, o2
+                    if a == "x-y" and self.maybe(0.6):
+                        pr["xY"] = copy.deepcopy(self.pick([o1, o2]))      # a third one, equal to one of the two
         if self.maybe(0.6) and names:
             s["required"] = self.rng.sample(names, self.pick(list(range(0, len(names) + 1))))
             if self.maybe(0.1):
